@@ -422,6 +422,46 @@ def unit_direct_greens_function(kernel, mumps, timeout_ms=20000):
     return run_unit(f"linalg:direct_greens_function[kernel={kernel},{'mumps' if mumps else 'scipy-lu'}]", harness, functions=[(MODULE, "direct_greens_function")], timeout_ms=timeout_ms)
 
 
+# ------------------------------------------------------------------------------------------------ _kernel_pivot_rows
+def unit_kernel_pivot_rows(timeout_ms=20000):
+    """The pivots are the first k column pivots of a pivoted QR of the TRANSPOSED basis (columns of K^T = rows of K), k = number of kernel vectors;
+    no vectors: no pivots.  (A-SC: for a full-column-rank n x k basis those k rows form an invertible k x k submatrix.)"""
+    node = frontend.find(MODULE, "_kernel_pivot_rows")
+
+    def harness(eng):
+        n, k = eng.fresh("n"), eng.fresh("k")
+        eng.assume(z3.And(n >= 1, k >= 0, k <= n))
+        Kv = T("kernel_vectors")
+        Kv.shape = STup([SI(n), SI(k)])
+        calls = []
+
+        class Pivots(Model):
+            def m_getitem(s, e, key):
+                from pyvc.core import SSlice
+                if isinstance(key, SSlice) and key.lo is None and key.step is None:
+                    return T("leading_pivots", key.hi if not isinstance(key.hi, SI) else key.hi)
+                raise Unsupported("pivots[...]")
+
+        def qr(e, a, mode=None, pivoting=False, **kw):
+            calls.append((a, mode, pivoting, kw))
+            return STup([T("Q"), T("R"), Pivots()])
+        eng.globals.update({"qr": Builtin("qr", qr), "int": T("int"),
+                            "np": Namespace("np", {"array": Builtin("array", lambda e, x, dtype=None: T("empty_array") if len(e.as_seq(x).items) == 0 else T("array?")),
+                                                   "sort": Builtin("sort", lambda e, x: T("sorted", x))})})
+        res = eng.call(Closure(node, Env(None, {}), "_kernel_pivot_rows"), [Kv], {})
+        if eng.branch(k == 0):
+            eng.oblige("no-kernel-vectors:no-pivots", z3.BoolVal(isinstance(res, T) and res.head == "empty_array" and not calls), detail=repr(res))
+            return
+        ok = len(calls) == 1 and isinstance(calls[0][0], T) and calls[0][0].head == "attr:T" and calls[0][0].args[0] is Kv
+        eng.oblige("qr-of-the-transposed-basis-(pivoting-selects-rows-of-the-basis)", z3.BoolVal(ok), detail=repr(calls)[:200])
+        eng.oblige("qr-with-column-pivoting", z3.BoolVal(len(calls) == 1 and calls[0][2] is True))
+        okr = isinstance(res, T) and res.head == "sorted" and isinstance(res.args[0], T) and res.args[0].head == "leading_pivots"
+        eng.oblige("returns-the-leading-pivots", z3.BoolVal(okr), detail=repr(res))
+        if okr:
+            eng.oblige("as-many-pivots-as-kernel-vectors", zi(res.args[0].args[0]) == k)
+    return run_unit("linalg:_kernel_pivot_rows", harness, functions=[(MODULE, "_kernel_pivot_rows")], timeout_ms=timeout_ms)
+
+
 def specs():
     out = [("contracts.linalg_direct", "unit_constrain_matrix", {"cols_given": cg}) for cg in (True, False)]
     out += [("contracts.linalg_direct", "unit_direct_greens_function", {"kernel": k, "mumps": m}) for k in ("none", "same", "pair") for m in (False, True)]
